@@ -75,7 +75,7 @@ func newMessageSetFromProto(baseOffset, basePos int64, msgs []*Message, concurre
 	for i, m := range msgs {
 		data, err := encode(m)
 		if err != nil {
-			panic(err)
+			return nil, nil, err
 		}
 		var (
 			len    = int32(len(data))
